@@ -25,6 +25,7 @@ from __future__ import annotations
 import importlib.util
 import itertools
 import json
+import os
 import sys
 import tempfile
 import typing as ty
@@ -128,6 +129,12 @@ def run_case(case: dict, scratch: Path, keep_exc: bool = False) -> dict:
     Path(scratch).mkdir(parents=True, exist_ok=True)
     cache_root = Path(tempfile.mkdtemp(prefix=f"cache_{uid}_", dir=scratch))  # always fresh: job dirs are counted
     phase = "define"
+    # pydra's persistent *file-hash* cache (~/.cache/pydra/hashes by default) is scanned by every Submitter call; point it
+    # at the scratch directory so that the run neither depends on nor pollutes the user's cache (env var read at call time)
+    hash_dir = Path(scratch) / "hash-cache"
+    hash_dir.mkdir(exist_ok=True)
+    old_env = os.environ.get("PYDRA_HASH_CACHE")
+    os.environ["PYDRA_HASH_CACHE"] = str(hash_dir)
     try:
         mod = load_module(src, scratch, uid)
         W = getattr(mod, f"W_{uid}")
@@ -153,6 +160,10 @@ def run_case(case: dict, scratch: Path, keep_exc: bool = False) -> dict:
             r["msg"] = str(root)[:200]
         return r
     finally:
+        if old_env is None:
+            os.environ.pop("PYDRA_HASH_CACHE", None)
+        else:
+            os.environ["PYDRA_HASH_CACHE"] = old_env
         Workflow.clear_cache()
         sys.modules.pop(f"wfgen_{uid}", None)
 
